@@ -4,12 +4,20 @@ Property theorems only; helper lemmas live in Lemmas/Rc4.lean, the textbook RC4 
 
 What is NOT a theorem, and is not claimed: "the two directions never share a keystream" for ALL
 session keys. RC4 has colliding keys and HMAC is not injective (and `C : Crypto` is arbitrary here), so
-for some hypothetical K the two derived RC4 states could coincide. What is proved is the *constant
-assignment* (`C09_directions`): S ≠ R, client-encrypt and server-decrypt use S, server-encrypt and
-client-decrypt use R. Inequality of the two keystreams is tested per sampled key by the harness.
+for some hypothetical K the two derived RC4 states could coincide. What is proved is
+* the *constant assignment* (`C09_directions`): S ≠ R, client-encrypt and server-decrypt use S,
+  server-encrypt and client-decrypt use R;
+* a *reduction* (`C09_shared_state_gives_key_collision`, `C09_no_key_collision_gives_disjoint_states`):
+  the PRGA step is a bijection on intact states (`Lemmas/Rc4Inv.lean`), so if the two directions are EVER
+  in the same RC4 state after the same number of bytes — right after the 1024-byte drop or a million
+  bytes later — then already `Rc4::new(HMAC(S, K)) = Rc4::new(HMAC(R, K))`: an explicit related-key
+  collision of KSA∘HMAC under the two fixed constants. (That KSA is injective on 20-byte keys is NOT claimed.)
+Inequality of the two keystreams is tested per sampled key by the harness; one concrete key is
+evaluated in `Props/C09Directions.lean`.
 -/
 import WowSrp.Lemmas.Rc4
 import WowSrp.Lemmas.Rc4Spec
+import WowSrp.Lemmas.Rc4Inv
 namespace WowSrp
 
 /-- `Rc4::new` never panics — for every key, the empty one included (there the `zip` with the empty
@@ -152,6 +160,93 @@ theorem C09_roundtrip_from_equal_states (e e' : Rc4) (sendChunks recvChunks : Li
     runChunks Rc4.apply e recvChunks = .ok (e', sendChunks.flatten) :=
   Rc4.roundtrip_chunks e e' _ _ _ hsend hpart
 
+/-! ### the two directions: a shared state is a key collision -/
+
+/-- **the PRGA step is a bijection on intact states** (table of 256 entries, every `i`, `j`), so `n`
+    keystream bytes on is an injective map, for every `n`; stated on the model's own
+    `pseudo_random_generation` / `apply_keystream` (`Lemmas/Rc4Inv.lean`: `Rc4.prev` is the inverse step) -/
+theorem C09_prga_bijective :
+    (∀ (a b : Rc4), a.Inv → b.Inv → ∀ (s : Rc4) (va vb : UInt8),
+      a.prga = .ok (s, va) → b.prga = .ok (s, vb) → a = b) ∧
+    (∀ r : Rc4, r.Inv → ∃ (a : Rc4) (v : UInt8), a.Inv ∧ a.prga = .ok (r, v)) ∧
+    (∀ (a b : Rc4), a.Inv → b.Inv → ∀ (xs ys : Bytes), xs.length = ys.length →
+      ∀ (s : Rc4) (ox oy : Bytes), a.apply xs = .ok (s, ox) → b.apply ys = .ok (s, oy) → a = b) := by
+  refine ⟨fun a b ha hb s va vb h₁ h₂ => Rc4.prga_injective a b ha hb s va vb h₁ h₂, ?_,
+    fun a b ha hb xs ys hl s ox oy h₁ h₂ => Rc4.apply_injective_state a b ha hb xs ys hl s ox oy h₁ h₂⟩
+  intro r hr
+  obtain ⟨a, ha, hn⟩ := Rc4.next_surjective r hr
+  exact ⟨a, a.out, ha, by rw [a.prga_pure ha, hn]⟩
+
+/-- **if the two directions ever share a state, the two derived RC4 keys collide.** Let `c2s` / `s2c` be
+    the client→server and server→client ciphers built from the same session key `K`
+    (`InnerCrypto::new(K, S)` resp. `(K, R)`: what the four halves hold, `C09_halves`). If after the
+    same number of bytes — any data, `xs.length = ys.length`, in particular `xs = ys = []`: right after
+    the 1024-byte drop — the two are in the same RC4 state `r`, then the two key schedules already
+    agreed: `Rc4::new(HMAC(S, K)) = Rc4::new(HMAC(R, K))`. For every `Crypto` and every `K`. -/
+theorem C09_shared_state_gives_key_collision (C : Crypto) (K : Bytes) (c2s s2c : Rc4)
+    (h₁ : InnerCrypto.new C K Gen.wrathS = .ok c2s) (h₂ : InnerCrypto.new C K Gen.wrathR = .ok s2c)
+    (xs ys : Bytes) (hl : xs.length = ys.length) (r : Rc4) (ox oy : Bytes)
+    (hx : c2s.apply xs = .ok (r, ox)) (hy : s2c.apply ys = .ok (r, oy)) :
+    Rc4.new (C.hmac Gen.wrathS K) = Rc4.new (C.hmac Gen.wrathR K) := by
+  obtain ⟨rS, hS, invS, _, _, newS, invS'⟩ := InnerCrypto.new_pure C K Gen.wrathS
+  obtain ⟨rR, hR, invR, _, _, newR, invR'⟩ := InnerCrypto.new_pure C K Gen.wrathR
+  rw [newS] at h₁
+  rw [newR] at h₂
+  have h₁ := Out.ok.inj h₁
+  have h₂ := Out.ok.inj h₂
+  subst h₁
+  subst h₂
+  have e := Rc4.apply_injective_state _ _ invS' invR' xs ys hl r ox oy hx hy
+  have e0 : rS = rR := Rc4.advance_injective _ rS rR invS invR e
+  rw [hS, hR, e0]
+
+/-- the same on the four halves by name: `a` is the client's encrypter or the server's decrypter, `b` the
+    RC4 of the server's encrypter or of the client's decrypter -/
+theorem C09_shared_state_gives_key_collision_halves (C : Crypto) (K : Bytes)
+    (ce sd : Rc4) (se : WServerEnc) (cd : WClientDec)
+    (hce : WClientEnc.new C K = .ok ce) (hsd : WServerDec.new C K = .ok sd)
+    (hse : WServerEnc.new C K = .ok se) (hcd : WClientDec.new C K = .ok cd)
+    (a b : Rc4) (ha : a = ce ∨ a = sd) (hb : b = se.rc4 ∨ b = cd.rc4)
+    (xs ys : Bytes) (hl : xs.length = ys.length) (r : Rc4) (ox oy : Bytes)
+    (hx : a.apply xs = .ok (r, ox)) (hy : b.apply ys = .ok (r, oy)) :
+    Rc4.new (C.hmac Gen.wrathS K) = Rc4.new (C.hmac Gen.wrathR K) := by
+  obtain ⟨e1, e2, rR, hR, e3, e4⟩ := C09_halves C K
+  rw [e1] at hce
+  rw [e2] at hsd
+  rw [e3] at hse
+  rw [e4] at hcd
+  injection hse with hse
+  injection hcd with hcd
+  have ha' : InnerCrypto.new C K Gen.wrathS = .ok a := by
+    cases ha with
+    | inl h => rw [h]; exact hce
+    | inr h => rw [h]; exact hsd
+  have hb' : b = rR := by
+    cases hb with
+    | inl h => rw [h, ← hse]
+    | inr h => rw [h, ← hcd]
+  subst hb'
+  exact C09_shared_state_gives_key_collision C K a b ha' hR xs ys hl r ox oy hx hy
+
+/-- **contrapositive: no key collision ⇒ the two directions never share a state.** For a session key whose
+    two derived RC4 key schedules differ (one evaluation of KSA∘HMAC per direction decides this), both
+    ciphers exist, never panic, and after ANY equal number of bytes on either side the two RC4 states
+    are different — at the drop boundary and forever after. (Different states may still emit equal
+    keystream bytes here and there; that is not excluded and not claimed.) -/
+theorem C09_no_key_collision_gives_disjoint_states (C : Crypto) (K : Bytes)
+    (hne : Rc4.new (C.hmac Gen.wrathS K) ≠ Rc4.new (C.hmac Gen.wrathR K)) :
+    ∃ c2s s2c, InnerCrypto.new C K Gen.wrathS = .ok c2s ∧ InnerCrypto.new C K Gen.wrathR = .ok s2c ∧
+      ∀ xs ys : Bytes, xs.length = ys.length →
+        ∃ r₁ r₂ o₁ o₂, c2s.apply xs = .ok (r₁, o₁) ∧ s2c.apply ys = .ok (r₂, o₂) ∧ r₁ ≠ r₂ := by
+  obtain ⟨rS, _, _, _, _, newS, invS'⟩ := InnerCrypto.new_pure C K Gen.wrathS
+  obtain ⟨rR, _, _, _, _, newR, invR'⟩ := InnerCrypto.new_pure C K Gen.wrathR
+  refine ⟨_, _, newS, newR, fun xs ys hl => ?_⟩
+  have hx := Rc4.apply_eq _ invS' xs
+  have hy := Rc4.apply_eq _ invR' ys
+  refine ⟨_, _, _, _, hx, hy, fun e => hne ?_⟩
+  rw [← e] at hy
+  exact C09_shared_state_gives_key_collision C K _ _ newS newR xs ys hl _ _ _ hx hy
+
 /-! ### the model's RC4 is the textbook RC4
 
 `Spec/Rc4.lean` is RC4 as RFC 6229 / the textbook describes it: tables of naturals, every index and
@@ -237,3 +332,8 @@ example : Spec.Rc4.keystream 32 (Spec.Rc4.init ((List.range 32).map (· + 1))) =
     assuming them), and `Crypto.real` satisfies `C.WF`-style length facts on concrete inputs (C08). -/
 
 end WowSrp
+
+#print axioms WowSrp.C09_prga_bijective
+#print axioms WowSrp.C09_shared_state_gives_key_collision
+#print axioms WowSrp.C09_shared_state_gives_key_collision_halves
+#print axioms WowSrp.C09_no_key_collision_gives_disjoint_states
